@@ -34,6 +34,7 @@ class FnSpec:
         self.mutants = []       # {"name":..., "pat":..., "repl":...}
         self.expect = {}
         self.no_canary = False
+        self.assumed = None     # (id, reason): body dropped, contract assumed
 
 
 class Extract:
@@ -49,7 +50,7 @@ class Extract:
 def _kv(rest):
     """parse key=value / key="quoted value" options"""
     out = {}
-    for m in re.finditer(r'(\w+)=("([^"]*)"|\S+)', rest):
+    for m in re.finditer(r'(\w+)=("([^"]*)"|\S*)', rest):
         out[m.group(1)] = m.group(3) if m.group(3) is not None else m.group(2)
     return out
 
@@ -125,6 +126,10 @@ def parse_template(path):
             curfn.expect = {k: int(v) for k, v in _kv(d).items()}
         elif w[0] == "no_canary":
             curfn.no_canary = True
+        elif w[0] == "assumed":
+            mm = re.match(r"assumed\s+([A-Za-z0-9_.:-]+):?\s*(.*)$", d)
+            curfn.assumed = (mm.group(1), mm.group(2))
+            curfn.no_canary = True
         elif w[0].rstrip(":") == "spec":
             sink = curfn.spec
         elif w[0] == "loop":
@@ -168,7 +173,7 @@ def _plan_item(idx, ex):
         item["type_subst"] = dict(p.split("=>") for p in ex.opts["subst"].split(";") if p)
     fns = []
     for f in ex.fns:
-        p = {"name": f.name, "rules": f.rules, "contract": True}
+        p = {"name": f.name, "rules": f.rules, "contract": True, "assumed": bool(f.assumed)}
         if f.ret:
             p["ret"] = f.ret
         p["iters"] = {str(k): v["iter"] for k, v in f.loops.items() if v["iter"]}
@@ -205,6 +210,11 @@ def _splice_fn(text, f, info, canary):
     if f.ret:
         text = text.replace(f"-> __VX_F{j}_RET__", f"-> ({f.ret}: {info['ret_ty']})")
     spec = "\n".join("    " + l for l in f.spec)
+    if f.assumed:
+        hdr = re.compile(r"^([ \t]*)((?:pub(?:\([a-z]+\))?\s+)?fn\s+%s\b)" % re.escape(f.name), re.M)
+        if len(hdr.findall(text)) != 1:
+            raise Undecided(f"internal: header of assumed fn {f.name} not found once")
+        text = hdr.sub(lambda m: f"{m.group(1)}// ASSUMED[{f.assumed[0]}]: {f.assumed[1]}\n{m.group(1)}#[verifier::external_body]\n{m.group(1)}{m.group(2)}", text)
     can = f" assert(false); /*canary:{f.name}*/" if (canary and not f.no_canary) else ""
     pat = re.compile(r"\{\s*__VX_F%d_FN__;" % j)
     if len(pat.findall(text)) != 1:
@@ -299,6 +309,7 @@ def generate(template_path, with_mutants=False):
                     "loop_invariants": sum(len(v["lines"]) for v in f.loops.values()),
                     "closure_contracts": len(f.closures),
                     "mutants": [m["name"] for m in f.mutants],
+                    "assumed": f.assumed[0] if f.assumed else None,
                 })
             if any(f.mutants for f in ex.fns):
                 mutant_sites.append((len(out), ex, r["text"], infos))
